@@ -27,7 +27,7 @@ import itertools
 import json
 
 STREAMS = ['corpus-and-exemplars', 'interleavings-exhaustive', 'foreign-messages', 'bodies-reencode',
-           'histories-random']
+           'full-rule-language', 'histories-random']
 THEOREMS = ['unique_names_fresh', 'unique_names_never_reused', 'unicast_exact', 'owner_unique',
             'sender_is_true', 'remarshal_keeps', 'unchanged_except_sender', 'remarshal_drops_extra_fields',
             'order_preserved', 'bus_calls_answered_not_forwarded', 'disconnect_completes',
@@ -108,11 +108,28 @@ def bodies():
         'vtuple': ('v', [(1, 2 ** 40)]),
         'vboolt': ('v', [(5, True)]),
         'vi64list': ('v', [[M.Int64(1), M.Int64(2 ** 40)]]),
+        # bodies for argN / argNpath / arg0namespace rules
+        'name': ('s', ['org.ex.A']),
+        'namesub': ('s', ['org.ex.A.sub']),
+        'nsx': ('ss', ['org.ex', 'x']),
+        'nsnear': ('s', ['org.exx']),
+        'spath': ('s', ['/x/y/']),
+        'opath': ('o', ['/x/y']),
+        'so': ('so', ['hi', '/x']),
+        'us': ('us', [5, 'hi']),
+        'g': ('g', ['ss']),
+        'vs': ('v', ['hi']),
+        'quote': ('ss', ["it's", 'a,b=c']),
+        's13': ('s' * 13, ['a'] * 12 + ['hi']),
     }
 
 
 BODY_KEYS = ['none', 's', 'ii', 'x', 't', 'vbig', 'vneg', 'vplain', 'vsmall', 'av', 'asv', 'sv', 'vv',
              'sss', 'as', 'd', 'o', 'vtuple', 'vboolt', 'vi64list']
+# bodies whose arguments the argN / argNpath / arg0namespace constraints of the generated rules look at
+ARG_BODY_KEYS = ['none', 's', 'sss', 'o', 'ii', 'name', 'namesub', 'nsx', 'nsnear', 'spath', 'opath', 'so', 'us', 'g',
+                 'vs', 'quote', 's13', 'as']
+NS_PATHS = ['/', '/x', '/y', '/x/y', '/xy', '/x/y/z']
 
 
 def body_token(sig, body):
@@ -135,6 +152,85 @@ def tok(x):
     if x == '':
         return '-'
     return str(x)
+
+
+# --------------------------------------------------------------------------- full rule language: tokens for the driver
+RULE_KW = ['mtype', 'sender', 'interface', 'member', 'path', 'path_namespace', 'destination', 'args', 'arg_paths',
+           'arg0namespace']
+
+
+def hx(s):
+    return '-' if s == '' else ''.join('%06x' % ord(c) for c in s)
+
+
+def enc_opt(v):
+    return '~' if v is None else hx(v)
+
+
+def enc_pairs(v):
+    if v is None:
+        return '~'
+    if not v:
+        return '.'
+    return ','.join('%d:%s' % (i, hx(x)) for i, x in v)
+
+
+def enc_rule(kw, sep=' '):
+    """The kwargs of router.addMatch as the driver's 10 rule tokens (C12's format)."""
+    return sep.join(enc_pairs(kw.get(k)) if k in ('args', 'arg_paths') else enc_opt(kw.get(k)) for k in RULE_KW)
+
+
+def args_view(body):
+    """A message body as match rules see it: every `str` is a string, everything else is 'other'."""
+    if body is None:
+        return None
+    return [('s', str(v)) if isinstance(v, str) else ('o',) for v in body]
+
+
+def enc_args(view):
+    if view is None:
+        return '~'
+    if not view:
+        return '.'
+    return ','.join('s' + hx(a[1]) if a[0] == 's' else 'o' for a in view)
+
+
+def sig_types(sig):
+    """Top-level single complete types of a signature."""
+    out, i = [], 0
+    while i < len(sig):
+        j = i
+        while sig[j] == 'a':
+            j += 1
+        if sig[j] in '({':
+            close = {'(': ')', '{': '}'}[sig[j]]
+            depth, k = 0, j
+            while True:
+                if sig[k] == sig[j]:
+                    depth += 1
+                elif sig[k] == close:
+                    depth -= 1
+                    if depth == 0:
+                        break
+                k += 1
+            j = k
+        out.append(sig[i:j + 1])
+        i = j + 1
+    return out
+
+
+def representable_rule(kw):
+    """Can the observed kwargs be written as a rule of the model (strings, lists of (index, string))?"""
+    for k, v in kw.items():
+        if k not in RULE_KW:
+            return False
+        if k in ('args', 'arg_paths'):
+            if not (isinstance(v, list) and all(isinstance(x, (tuple, list)) and len(x) == 2 and isinstance(x[0], int)
+                                                 and x[0] >= 0 and isinstance(x[1], str) for x in v)):
+                return False
+        elif not isinstance(v, str):
+            return False
+    return True
 
 
 # --------------------------------------------------------------------------- the network of real objects
@@ -205,12 +301,14 @@ class Net:
 
         def sendSignal(p, member, signature=None, body=None, *a, **kw):
             b = body if isinstance(body, (list, tuple)) else [body]
-            self.effects.append('sig %d %s %s' % (self.index_of(p), member, body_token(signature, list(b))))
+            self.effects.append('sig %d %s %s %s' % (self.index_of(p), member, body_token(signature, list(b)),
+                                                     enc_args(args_view(list(b)))))
             return real_send(p, member, signature, body, *a, **kw)
 
         def broadcastSignal(member, signature=None, body=None, *a, **kw):
             b = body if isinstance(body, (list, tuple)) else [body]
-            self.effects.append('bcast %s %s' % (member, body_token(signature, list(b))))
+            self.effects.append('bcast %s %s %s' % (member, body_token(signature, list(b)),
+                                                    enc_args(args_view(list(b)))))
             return real_bcast(member, signature, body, *a, **kw)
         self.bus.sendSignal = sendSignal
         self.bus.broadcastSignal = broadcastSignal
@@ -229,7 +327,7 @@ class Net:
             return real_exec(*a, **kw)
 
         def addMatch(callback, **kw):
-            self.observed.append(('addmatch', dict((k, v) for k, v in kw.items() if v)))
+            self.observed.append(('addmatch', dict((k, v) for k, v in kw.items() if v is not None)))
             return real_add(callback, **kw)
         self.bus.executeMethod = executeMethod
         router.addMatch = addMatch
@@ -451,6 +549,8 @@ def parse(message, raw, sent=False):
         'member': getattr(m, 'member', None), 'err': getattr(m, 'error_name', None),
         'rs': getattr(m, 'reply_serial', None), 'dest': m.destination, 'sender': m.sender,
         'sig': m.signature, 'body': repr(m.body) if m.signature else None,
+        # the body as match rules see it, and the DBus type of every top-level argument (for the oracle)
+        'args': args_view(m.body), 'argtypes': sig_types(m.signature) if m.signature else [],
         'endian': raw[0], 'rawbody': bytes(m.rawBody).hex(),
         # field code -> type of its variant, the sender field (7) left out; a mapping: order is not content
         'hfields': dict((str(c), hf[c][0]) for c in hf if c != 7),
@@ -544,11 +644,105 @@ def build_foreign(B, md):
 
 
 # --------------------------------------------------------------------------- building messages
+TEXT_KEYS = ('type', 'sender', 'interface', 'member', 'path', 'path_namespace', 'destination')
+
+
+def arg_items(rule):
+    """[(index, 'arg' | 'argpath', value)] of a rule dict, in index order (argN before argNpath)."""
+    out = []
+    for k, v in rule.items():
+        if k.startswith('arg') and k != 'arg0namespace':
+            if k.endswith('path'):
+                out.append((int(k[3:-4]), 'argpath', v))
+            else:
+                out.append((int(k[3:]), 'arg', v))
+    return sorted(out)
+
+
+def quote_value(v):
+    """DBus match-rule quoting: the value between apostrophes, an apostrophe inside it written as '\\''."""
+    return "'" + v.replace("'", "'\\''") + "'"
+
+
 def rule_text(rule):
+    """A rule dict (keys as in the rule text: type, sender, ..., argN, argNpath, arg0namespace; '_via': 'client' =
+    rendered by the real DBusClientConnection.addMatch) as rule text."""
     if isinstance(rule, str):
         return rule
-    return ','.join("%s='%s'" % (k, rule[k]) for k in ('type', 'sender', 'interface', 'member', 'path', 'destination')
-                    if k in rule)
+    if rule.get('_via') == 'client':
+        t = client_rule_text(rule)
+        if t is not None:
+            return t
+    items = ['%s=%s' % (k, quote_value(rule[k])) for k in TEXT_KEYS if k in rule]
+    items += ['%s%d%s=%s' % ('arg', i, 'path' if kind == 'argpath' else '', quote_value(v))
+              for i, kind, v in arg_items(rule)]
+    if 'arg0namespace' in rule:
+        items.append('arg0namespace=%s' % quote_value(rule['arg0namespace']))
+    return ','.join(items)
+
+
+_CLIENT = {}
+CLIENT_TEXTS = {'n': 0, 'fallback': 0}
+
+
+def client_connection():
+    """A real DBusClientConnection after its handshake and Hello, on a StringTransport (None: not constructible in
+    this tree - the harness then writes the text itself)."""
+    if 'conn' in _CLIENT:
+        return _CLIENT['conn']
+    _CLIENT['conn'] = None
+    try:
+        from twisted.internet.testing import StringTransport
+        from txdbus import client, message
+        c = client.DBusClientConnection()
+        c.factory = client.DBusClientFactory()
+        t = StringTransport()
+        c.makeConnection(t)
+        t.clear()
+        c.dataReceived(b'OK 1234deadbeef\r\n')
+        raw = t.value()
+        t.clear()
+        hello = message.parseMessage(raw[raw.index(b'BEGIN\r\n') + 7:], [])
+        c.dataReceived(message.MethodReturnMessage(hello.serial, body=[':1.7'], signature='s',
+                                                   destination=':1.7').rawMessage)
+        if c.busName == ':1.7':
+            _CLIENT['conn'] = (c, t, message)
+    except Exception:
+        _CLIENT['conn'] = None
+    return _CLIENT['conn']
+
+
+def client_rule_text(rule):
+    """The text the real txdbus client sends in AddMatch for these constraints (None: could not be obtained)."""
+    conn = client_connection()
+    if conn is None:
+        CLIENT_TEXTS['fallback'] += 1
+        return None
+    c, t, message = conn
+    kw = {}
+    for k in ('sender', 'interface', 'member', 'path', 'path_namespace', 'destination', 'arg0namespace'):
+        if k in rule:
+            kw[k] = rule[k]
+    if 'type' in rule:
+        kw['mtype'] = rule['type']
+    items = arg_items(rule)
+    if any(kind == 'arg' for _, kind, _ in items):
+        kw['arg'] = [(i, v) for i, kind, v in items if kind == 'arg']
+    if any(kind == 'argpath' for _, kind, _ in items):
+        kw['arg_path'] = [(i, v) for i, kind, v in items if kind == 'argpath']
+    try:
+        t.clear()
+        c.addMatch(lambda m: None, **kw).addErrback(lambda f: None)
+        raw = t.value()
+        t.clear()
+        m = message.parseMessage(raw, [])
+        if m.member == 'AddMatch' and m.signature == 's':
+            CLIENT_TEXTS['n'] += 1
+            return m.body[0]
+    except Exception:
+        pass
+    CLIENT_TEXTS['fallback'] += 1
+    return None
 
 
 def build(message, B, md):
@@ -676,17 +870,60 @@ def resolve_at(md, names):
 
 
 def parse_rule(text):
-    """Rule text -> dict, or None when dbus_AddMatch cannot parse it (no rule is registered then)."""
+    """Rule text -> dict of its constraints, read with the grammar of the DBus specification ("Match Rules": comma
+    separated key=value; an apostrophe opens / closes a quoted stretch in which every character is literal; outside
+    quotes a backslash followed by an apostrophe is an apostrophe).  None: not a rule this oracle can read (no '=',
+    unterminated quote, unknown key, a key twice, an argument index that is not a decimal number <= 63): nothing is
+    expected of the bus for it (it must not be held against anybody either: the caller records no rule)."""
     out = {}
-    for item in text.split(','):
-        kv = item.split('=')
-        if len(kv) != 2:
+    i, n = 0, len(text)
+    if n == 0:
+        return out
+    while True:
+        j = text.find('=', i)
+        if j < 0:
             return None
-        k, v = kv
-        if k.startswith('arg') and k not in ('arg0namespace',):
-            return None        # outside what this harness generates
-        out[k] = v[1:-1]
-    return out
+        key = text[i:j]
+        if ',' in key or "'" in key:
+            return None
+        i = j + 1
+        val, quoted = [], False
+        while i < n:
+            c = text[i]
+            if quoted:
+                if c == "'":
+                    quoted = False
+                else:
+                    val.append(c)
+            elif c == "'":
+                quoted = True
+            elif c == ',':
+                break
+            elif c == '\\' and text[i + 1:i + 2] == "'":
+                val.append("'")
+                i += 1
+            else:
+                val.append(c)
+            i += 1
+        if quoted:
+            return None
+        if key in TEXT_KEYS or key == 'arg0namespace':
+            pass
+        elif key.startswith('arg'):
+            num = key[3:-4] if key.endswith('path') else key[3:]
+            if not (num.isascii() and num.isdigit()) or int(num) > 63:
+                return None
+            key = 'arg%d%s' % (int(num), 'path' if key.endswith('path') else '')
+        else:
+            return None
+        if key in out:
+            return None
+        out[key] = ''.join(val)
+        if i >= n:
+            return out
+        i += 1          # the comma
+        if i >= n:
+            return None     # trailing comma
 
 
 # --------------------------------------------------------------------------- running a history
@@ -735,21 +972,18 @@ def run_history(ops):
             s = st.sent
             if st.op[0] == 'addmatch':
                 kw = st.op[1]
-                unsupported = [k for k in kw if k not in ('mtype', 'sender', 'interface', 'member', 'path',
-                                                          'destination')]
-                if unsupported:
-                    raise RuntimeError('the harness generated a rule with keys the model has no twin for: %s'
-                                       % unsupported)
-                opt = 'addmatch %s %s %s %s %s %s' % (tok(MTYPES.get(kw.get('mtype'))), tok(kw.get('sender')),
-                                                      tok(kw.get('interface')), tok(kw.get('member')),
-                                                      tok(kw.get('path')), tok(kw.get('destination')))
+                if not representable_rule(kw):
+                    raise RuntimeError('the harness generated a rule text whose kwargs the model has no twin for: %r'
+                                       % (kw,))
+                opt = 'addmatch ' + enc_rule(kw)
             elif st.op[0] == 'always':
                 opt = 'always'
             else:
                 opt = 'exec %d %s' % (len(st.effects), ' '.join(st.effects))
-            lines.append('msg %d %d %d %d %s %s %s %s %s %s %s %s %s %s' % (
+            lines.append('msg %d %d %d %d %s %s %s %s %s %s %s %s %s %s %s' % (
                 st.i, s['t'], s['serial'], s['flags'], tok(s['path']), tok(s['iface']), tok(s['member']),
-                tok(s['err']), tok(s['rs']), tok(s['dest']), tok(s['sender']), s['extra'] or '-', s['btok'], opt))
+                tok(s['err']), tok(s['rs']), tok(s['dest']), tok(s['sender']), s['extra'] or '-', s['btok'],
+                enc_args(s['args']), opt))
     return net, [ln.rstrip() for ln in lines]
 
 
@@ -776,7 +1010,9 @@ def impl_lines(net):
         else:
             named = '%d:%s' % (st.i, st.named) if st.named else '~'
             ds = ''.join(' ; %d %s' % (j, show_payload(d)) for j, d in st.deliv)
-            out.append('named=%s lose=%d n=%d%s' % (named, 1 if st.lose else 0, len(st.deliv), ds))
+            # the kwargs the real router.addMatch was called with (the model prints its own reading of the rule text)
+            rule = ' rule=' + enc_rule(st.op[1], '/') if (st.kind == 'msg' and st.op and st.op[0] == 'addmatch') else ''
+            out.append('named=%s lose=%d n=%d%s%s' % (named, 1 if st.lose else 0, len(st.deliv), ds, rule))
     return out
 
 
@@ -784,15 +1020,42 @@ def impl_lines(net):
 MTYPES = {'method_call': 1, 'method_return': 2, 'error': 3, 'signal': 4}
 
 
-def rule_matches_spec(rule, m, heads=None, names=None, ignore_sender=False):
-    """DBus match rule semantics for the keys this harness uses.  `m['sender']` is the TRUE unique name of the
-    originator; a `sender=` constraint naming a well-known name means its current owner (heads: name -> connection)."""
+def rule_matches_spec(rule, m, heads=None, names=None, ignore_sender=False, ignore_arg0ns=False, bus_built=False):
+    """Does message `m` satisfy match rule `rule`?  Written from the "Match Rules" section of the DBus specification,
+    for every key of the rule language.  -> True / False / None (None: the specification text does not settle this
+    pair for txdbus - see below - and nothing is demanded).
+
+      type            the message type
+      sender          `m['sender']` is the TRUE unique name of the originator; a well-known value means the current
+                      owner of that name (heads: name -> connection); messages built by the bus come from
+                      org.freedesktop.DBus
+      interface, member, path, destination      the header field is there and equal
+      path_namespace  "matches messages which are sent from or to an object for which the object path is either the
+                      given value, or that value followed by one or more path components" ('/' contains everything)
+      argN            "only arguments of type STRING can be matched in this way": the N-th argument exists, is a
+                      STRING and equals the value
+      argNpath        "arguments whose type is either STRING or OBJECT_PATH": equal, "or either the string given in
+                      the match rule or the appropriate message argument ends with '/' and is a prefix of the other"
+      arg0namespace   "messages whose first argument is of type STRING, and is a bus name or interface name within
+                      the specified namespace": equal, or the value followed by '.' is a prefix of it
+
+    Undecided (None), as in C12: a string-valued argument of another DBus type (OBJECT_PATH / SIGNATURE under argN or
+    arg0namespace, SIGNATURE under argNpath, a string inside a VARIANT) whose text satisfies the constraint - txdbus
+    unmarshals all of them to `str`; and a constraint whose value is the empty string (no message can satisfy
+    interface='', the router drops the constraint)."""
+    for k in TEXT_KEYS + ('arg0namespace',):
+        if rule.get(k) == '':
+            return None
+    undecided = False
     if 'type' in rule:
         if MTYPES.get(rule['type']) != m['t']:
             return False
     if 'sender' in rule and not ignore_sender:
         v = rule['sender']
-        if v.startswith(':'):
+        if bus_built:
+            if v != BUS:
+                return False
+        elif v.startswith(':'):
             if m['sender'] != v:
                 return False
         elif v == BUS:
@@ -804,7 +1067,58 @@ def rule_matches_spec(rule, m, heads=None, names=None, ignore_sender=False):
     for k, f in (('interface', 'iface'), ('member', 'member'), ('path', 'path'), ('destination', 'dest')):
         if k in rule and m[f] != rule[k]:
             return False
-    return True
+    if 'path_namespace' in rule:
+        ns, p = rule['path_namespace'], m['path']
+        if not isinstance(p, str):
+            return False
+        if not (ns == '/' or p == ns or p[:len(ns) + 1] == ns + '/'):
+            return False
+    view = m.get('args') or []
+    types = m.get('argtypes') or []
+
+    def typ(idx):
+        return types[idx] if idx < len(types) else None
+    for idx, kind, val in arg_items(rule):
+        if idx >= len(view) or view[idx][0] != 's':
+            return False
+        a = view[idx][1]
+        if kind == 'arg':
+            if a != val:
+                return False
+            if typ(idx) != 's':
+                undecided = True
+        else:
+            if not (a == val or (val[-1:] == '/' and a[:len(val)] == val) or (a[-1:] == '/' and val[:len(a)] == a)):
+                return False
+            if typ(idx) not in ('s', 'o'):
+                undecided = True
+    if 'arg0namespace' in rule and not ignore_arg0ns:
+        ns = rule['arg0namespace']
+        if not view or view[0][0] != 's':
+            return False
+        a = view[0][1]
+        if not (a == ns or a[:len(ns) + 1] == ns + '.'):
+            return False
+        if typ(0) != 's':
+            undecided = True
+    return None if undecided else True
+
+
+def judge_receivers(held_of, alive_set, got, match):
+    """Who must / may receive a broadcast: `match(rule, **relax)` is the tri-state matcher.  Returns
+    (missed, sender_ignored, arg0ns_ignored, unexplained): connections that hold a rule the signal satisfies and got
+    nothing, and connections that got it although they hold no rule it satisfies (or may satisfy) - split by which
+    unevaluated constraint explains the delivery."""
+    def some(j, want, **kw):
+        return any(want(match(r, **kw)) for r in held_of(j))
+    must = set(j for j in alive_set if some(j, lambda v: v is True))
+    may = set(j for j in alive_set if some(j, lambda v: v is not False))
+    over = set(got) - may
+    s_ign = set(j for j in over if some(j, lambda v: v is not False, ignore_sender=True))
+    a_ign = set(j for j in over - s_ign if some(j, lambda v: v is not False, ignore_arg0ns=True))
+    both = set(j for j in over - s_ign - a_ign if some(j, lambda v: v is not False, ignore_sender=True,
+                                                         ignore_arg0ns=True))
+    return must - set(got), s_ign | both, a_ign, over - s_ign - a_ign - both
 
 
 def malformed_by_generator(m):
@@ -874,6 +1188,7 @@ def oracle(net):
     names = [None] * nclients          # allocated unique names, by connection
     ever = {}                          # name -> connection it was first given to
     held = [[] for _ in range(nclients)]
+    opaque = [False] * nclients        # holds a registration whose text this oracle could not read: not judged
     dead_rules = [[] for _ in range(nclients)]
     helloed = [False] * nclients
     alive = [False] * nclients
@@ -938,6 +1253,38 @@ def oracle(net):
                 else:
                     add('delivery-to-disconnected-client', 'connection %d is gone and still receives a message' % j,
                         show_payload(d), 'no delivery')
+        # ---- signals the bus itself broadcasts (NameOwnerChanged): whoever gets one holds a rule it satisfies, and
+        # if anybody gets it, every holder of such a rule does (whether the bus should emit it at all is C13's)
+        groups = {}
+        for j, d in bo:
+            if d['t'] == 4 and d['dest'] is None:
+                groups.setdefault((d['path'], d['iface'], d['member'], d['sig'], d['body']), []).append((j, d))
+        for gkey, items in sorted(groups.items(), key=lambda kv: repr(kv[0])):
+            sigmsg = items[0][1]
+            listeners = set(j for j in range(nclients) if alive[j] and not (st.kind == 'disc' and j == i)
+                            and not opaque[j])
+            got_b = set(j for j, _ in items if j in listeners)
+
+            def match_b(r, **kw):
+                return rule_matches_spec(r, sigmsg, st.heads, names, bus_built=True, **kw)
+            missed, s_ign, a_ign, rest = judge_receivers(lambda j: held[j], listeners, got_b, match_b)
+            what = 'the bus\'s own signal %s' % sigmsg['member']
+            if s_ign:
+                add('sender-constraint-ignored', '%s reached connection(s) %s whose only matching rule(s) ask for another '
+                    'sender: %s' % (what, sorted(s_ign), [r for j in sorted(s_ign) for r in held[j] if 'sender' in r]),
+                    sorted(got_b), sorted(got_b - s_ign))
+            if a_ign:
+                add('arg0namespace-constraint-ignored', '%s (first argument %r) reached connection(s) %s whose only '
+                    'matching rule(s) ask for another namespace: %s'
+                    % (what, (sigmsg['args'] or [(None, None)])[0][-1], sorted(a_ign),
+                       [r for j in sorted(a_ign) for r in held[j] if 'arg0namespace' in r]),
+                    sorted(got_b), sorted(got_b - a_ign))
+            if rest:
+                add('bus-signal-to-non-holder', '%s reached connection(s) %s holding no rule it satisfies'
+                    % (what, sorted(rest)), sorted(got_b), sorted(got_b - rest))
+            if missed:
+                add('bus-signal-missed-rule-holder', '%s reached %s but not connection(s) %s, which hold a rule it '
+                    'satisfies' % (what, sorted(got_b), sorted(missed)), sorted(got_b), sorted(got_b | missed))
         if st.kind == 'disc':
             if fw:
                 add('forward-on-disconnect', 'a disconnect produced forwarded messages', [show_payload(d) for _, d in fw])
@@ -969,6 +1316,10 @@ def oracle(net):
 
         def matches(r, **kw):
             return rule_matches_spec(r, mprime, st.heads, names, **kw)
+
+        def lax(r):
+            # "holds a rule that made the router deliver this", whatever the unevaluated constraints say
+            return matches(r, ignore_sender=True, ignore_arg0ns=True) is not False
         receivers = [j for j, _ in fw]
         if dest == BUS:
             replies = [(j, d) for j, d in bo if d['t'] in (2, 3) and d['rs'] == m['serial']]
@@ -977,8 +1328,10 @@ def oracle(net):
                 refused = any(j == i and d['t'] == 3 for j, d in replies)
                 if r is not None and not refused:
                     held[i].append(r)
+                elif r is None and not refused:
+                    opaque[i] = True
             if fw:
-                holders = [j for j in receivers if any(matches(r, ignore_sender=True) for r in held[j] + dead_rules[j])]
+                holders = [j for j in receivers if any(lax(r) for r in held[j] + dead_rules[j])]
                 if len(holders) == len(receivers):
                     key = 'bus-call-routed-to-rule-holders'
                 elif m['t'] == 1:
@@ -1022,8 +1375,7 @@ def oracle(net):
                 if receivers != expected:
                     extra = [j for j in receivers if j != owner]
                     copies = receivers.count(owner) if owner is not None else 0
-                    if extra and all(any(matches(r, ignore_sender=True) for r in held[j] + dead_rules[j])
-                                     for j in extra):
+                    if extra and all(any(lax(r) for r in held[j] + dead_rules[j]) for j in extra):
                         add('unicast-also-routed-to-rule-holders',
                             'a unicast message for %s (connection %s) also reached connection(s) %s, which only '
                             'hold match rules' % (dest, owner, extra), receivers, expected)
@@ -1032,7 +1384,7 @@ def oracle(net):
                             % (dest, extra), receivers, expected)
                     elif copies > 1:
                         key = ('unicast-also-routed-to-rule-holders'
-                               if any(matches(r, ignore_sender=True) for r in held[owner]) else 'unicast-delivered-twice')
+                               if any(lax(r) for r in held[owner]) else 'unicast-delivered-twice')
                         add(key, 'a unicast message for %s reached its destination %d times (the destination holds a '
                             'matching rule)' % (dest, copies), receivers, expected)
                     elif copies == 0:
@@ -1040,21 +1392,26 @@ def oracle(net):
                             % (dest, owner), receivers, expected)
             sent_order.setdefault((true, dest), []).append(m['serial'])
         elif m['t'] == 4:
-            # broadcast: exactly the connections holding a matching rule
-            exp = set(j for j in range(nclients) if alive[j] and any(matches(r) for r in held[j]))
-            lax = set(j for j in range(nclients) if alive[j] and any(matches(r, ignore_sender=True) for r in held[j]))
-            got = set(j for j in receivers if alive[j])
-            if got - exp:
-                if (got - exp) <= lax:
-                    rules = [r for j in sorted(got - exp) for r in held[j] if 'sender' in r]
-                    add('sender-constraint-ignored', 'a broadcast from %s reached connection(s) %s whose only matching '
-                        'rule(s) ask for another sender: %s' % (true, sorted(got - exp), rules), sorted(got), sorted(exp))
-                else:
-                    add('broadcast-to-non-holder', 'a broadcast reached connection(s) %s holding no matching rule'
-                        % sorted(got - exp), sorted(got), sorted(exp))
-            if exp - got:
+            # broadcast: exactly the connections holding a rule it satisfies
+            listeners = set(j for j in range(nclients) if alive[j] and not opaque[j])
+            got = set(j for j in receivers if j in listeners)
+            missed, s_ign, a_ign, rest = judge_receivers(lambda j: held[j], listeners, got, matches)
+            if s_ign:
+                rules = [r for j in sorted(s_ign) for r in held[j] if 'sender' in r]
+                add('sender-constraint-ignored', 'a broadcast from %s reached connection(s) %s whose only matching '
+                    'rule(s) ask for another sender: %s' % (true, sorted(s_ign), rules), sorted(got), sorted(got - s_ign))
+            if a_ign:
+                rules = [r for j in sorted(a_ign) for r in held[j] if 'arg0namespace' in r]
+                add('arg0namespace-constraint-ignored', 'a broadcast from %s whose first argument is %s reached '
+                    'connection(s) %s whose only matching rule(s) ask for another namespace: %s'
+                    % (true, repr(m['args'][0][-1]) if m['args'] else 'absent', sorted(a_ign), rules),
+                    sorted(got), sorted(got - a_ign))
+            if rest:
+                add('broadcast-to-non-holder', 'a broadcast reached connection(s) %s holding no matching rule'
+                    % sorted(rest), sorted(got), sorted(got - rest))
+            if missed:
                 add('broadcast-missed-rule-holder', 'a broadcast did not reach connection(s) %s holding a matching rule'
-                    % sorted(exp - got), sorted(got), sorted(exp))
+                    % sorted(missed), sorted(got), sorted(got | missed))
     if net.unprocessed:
         add('message-not-processed', 'connection %(connection)d wrote %(messages_in_read)d complete message(s) in one '
             'read; the bus processed %(processed)d' % net.unprocessed, net.unprocessed['processed'],
@@ -1151,6 +1508,13 @@ def judge(ctx, stream, ops, model=True, collect=None):
                 ctx.stat('serial-or-reply-serial>=2**31')
             if st.op and st.op[0] == 'addmatch' and 'sender' in st.op[1]:
                 ctx.stat('rule-with-sender-constraint')
+            if st.op and st.op[0] == 'addmatch':
+                for k in ('path_namespace', 'args', 'arg_paths', 'arg0namespace'):
+                    if st.op[1].get(k):
+                        ctx.stat('rule-with-' + k)
+            if s['dest'] is None and s['t'] == 4 and s['args']:
+                ctx.stat('broadcast-with-string-argument' if any(a[0] == 's' for a in s['args'])
+                         else 'broadcast-with-other-arguments')
     if any(o[0] == 'split' for o in ops):
         ctx.stat('history-with-split-read')
     vs = oracle(net)
@@ -1281,8 +1645,33 @@ def random_rule(rng, typed):
     if rng.random() < 0.2:
         # evaluated against the TRUE sender; a well-known value means the current owner of that name
         r['sender'] = rng.choice(['@0', '@1', '@2', '@3'] + WELL_KNOWN + [BUS])
+    r.update(random_complex_constraints(rng))
     if not r:
         r['interface'] = IFACES[0]
+    return r
+
+
+ARG_VALUES = ['hi', 'a', '', 'c', 'org.ex.A', 'org.ex', '/x/y', '/x', "it's", 'a,b=c', 'ss', 'x']
+ARGPATH_VALUES = ['/x/', '/x/y', '/x/y/', '/', '/a/b', '/a/', '/x/y/z', 'hi', 'org.ex.A']
+NAMESPACES = ['org.ex', 'org', 'org.ex.A', 'com', 'org.e', 'hi']
+
+
+def random_complex_constraints(rng, p=0.35):
+    """path_namespace / argN / argNpath / arg0namespace constraints (about a third of the random rules get some)."""
+    r = {}
+    if rng.random() >= p:
+        return r
+    if rng.random() < 0.45:
+        r['path_namespace'] = rng.choice(['/', '/x', '/x/y', '/y', '/xy', '/x/y/z'])
+    if rng.random() < 0.5:
+        for _ in range(rng.choice([1, 1, 2])):
+            r['arg%d' % rng.choice([0, 0, 0, 1, 1, 2, 12])] = rng.choice(ARG_VALUES)
+    if rng.random() < 0.35:
+        r['arg%dpath' % rng.choice([0, 0, 1])] = rng.choice(ARGPATH_VALUES)
+    if rng.random() < 0.3:
+        r['arg0namespace'] = rng.choice(NAMESPACES)
+    if r and rng.random() < 0.3:
+        r['_via'] = 'client'        # the text is written by the real txdbus client
     return r
 
 
@@ -1306,9 +1695,10 @@ def random_msg(rng, i, nconn, serial, typed):
     if rng.random() < 0.5:
         forged = rng.choice(['@%d' % j for j in range(nconn)] + WELL_KNOWN + [BUS, ':1.99', ''])
     md = dict(t=t, serial=serial, flags=rng.choice([0, 0, 0, 1, 2, 3]), dest=dest, forged=forged,
-              path=rng.choice(PATHS), iface=rng.choice(IFACES + ([None] if t == 1 else [])),
+              path=rng.choice(PATHS if rng.random() < 0.6 else NS_PATHS),
+              iface=rng.choice(IFACES + ([None] if t == 1 else [])),
               member=rng.choice(MEMBERS), err='org.ex.Error', rs=rng.randrange(1, 50),
-              body=rng.choice(BODY_KEYS))
+              body=rng.choice(BODY_KEYS if rng.random() < 0.55 else ARG_BODY_KEYS))
     if rng.random() < 0.2:
         md['be'] = True
     if rng.random() < 0.15:
@@ -1488,6 +1878,116 @@ def split_read_histories():
             ops.append(['split', 0, mk(kind_i, 0, serial + 1), cut, 1, mk(kind_j, 1, serial + 2)])
             ops.append(['msg', 0, dict(t=2, serial=serial + 3, dest='@1', rs=9, body='none')])
             yield ops
+
+
+# --- the full rule language: every key, one rule per history, a fixed set of signals
+FULL_RULES = [
+    {'path_namespace': '/x'}, {'path_namespace': '/'}, {'path_namespace': '/x/y'}, {'path_namespace': '/xy'},
+    {'path_namespace': '/x/y/z'},
+    {'type': 'signal', 'path_namespace': '/x', 'interface': 'org.ex.I'}, {'path': '/x/y', 'path_namespace': '/x'},
+    {'arg0': 'hi'}, {'arg0': ''}, {'arg1': ''}, {'arg0': 'org.ex.A'}, {'arg2': 'c'}, {'arg12': 'hi'}, {'arg0': '/x/y'},
+    {'arg0': 'ss'}, {'arg0': "it's", 'arg1': 'a,b=c'}, {'arg1': 'hi'}, {'arg0': 'a', 'arg2': 'c', 'member': 'Foo'},
+    {'arg0path': '/x/'}, {'arg0path': '/x/y'}, {'arg0path': '/x/y/'}, {'arg0path': '/x/y/z'}, {'arg0path': '/'},
+    {'arg1path': '/x'}, {'arg1path': '/'}, {'arg0path': 'hi'}, {'arg0path': 'ss'}, {'arg0': '/x/y/', 'arg0path': '/x/'},
+    {'arg0namespace': 'org.ex'}, {'arg0namespace': 'org'}, {'arg0namespace': 'org.ex.A'}, {'arg0namespace': 'com'},
+    {'arg0namespace': 'org.e'}, {'arg0namespace': 'hi'}, {'arg0namespace': '/x'},
+    {'type': 'signal', 'arg0namespace': 'org.ex', 'member': 'Foo'}, {'arg0': 'org.ex.A', 'arg0namespace': 'org.ex'},
+    {'sender': '@0', 'arg0': 'hi'}, {'sender': '@1', 'path_namespace': '/x'}, {'sender': '@1', 'arg0namespace': 'com'},
+    {'interface': '', 'arg0': 'hi'}, {'type': 'method_call', 'arg0': 'hi'}, {'destination': ':1.9', 'arg0': 'hi'},
+]
+
+
+def full_rule_histories():
+    """Client 1 registers the rule with text written by the harness, client 2 the same constraints with the text the
+    real txdbus client writes; client 0 then broadcasts one signal per body (path /x/y) and one per path (body
+    'name'), client 1 two more."""
+    for k, rule in enumerate(FULL_RULES):
+        ops, serial = setup3(3)
+        ops.append(['match', 1, serial, dict(rule), k % 2])
+        ops.append(['match', 2, serial + 1, dict(rule, _via='client'), 0])
+        serial += 2
+        for body in ARG_BODY_KEYS:
+            ops.append(['msg', 0, dict(t=4, serial=serial, dest=None, path='/x/y', iface='org.ex.I', member='Foo',
+                                       body=body, be=(serial % 7 == 0))])
+            serial += 1
+        for path in NS_PATHS:
+            ops.append(['msg', 0, dict(t=4, serial=serial, dest=None, path=path, iface='org.ex.J', member='Bar',
+                                       body='name')])
+            serial += 1
+        ops.append(['msg', 1, dict(t=4, serial=serial, dest=None, path='/x', iface='org.ex.I', member='Foo', body='s')])
+        ops.append(['msg', 1, dict(t=4, serial=serial + 1, dest=None, path='/x/y', iface='org.ex.I', member='Foo',
+                                   body='nsx', forged='@0')])
+        # the same body in a message that is not a signal and in a unicast signal: rules play no part
+        ops.append(['msg', 0, dict(t=1, serial=serial + 2, dest='@1', path='/x/y', iface='org.ex.I', member='Foo',
+                                   body='s')])
+        ops.append(['msg', 0, dict(t=4, serial=serial + 3, dest='@2', path='/x/y', iface='org.ex.I', member='Foo',
+                                   body='name')])
+        yield ops
+
+
+NOC = 'NameOwnerChanged'
+NOC_RULES = [
+    {'type': 'signal', 'sender': BUS, 'interface': BUS, 'member': NOC},       # what every txdbus client registers
+    {'type': 'signal', 'sender': BUS, 'member': NOC, 'arg0': 'org.ex.A'},
+    {'arg0': 'org.ex.B'}, {'arg0namespace': 'org.ex'}, {'arg0namespace': 'org.ex.A'}, {'arg0namespace': 'org.exx'},
+    {'member': NOC, 'arg0namespace': 'com'}, {'arg1': ''}, {'arg2': ''}, {'arg1': '', 'arg0': 'org.ex.A'},
+    {'sender': '@0', 'member': NOC}, {'path_namespace': '/org/freedesktop'}, {'path_namespace': '/org/free'},
+    {'path': BUSPATH, 'arg0path': 'org.ex.A'}, {'arg3': 'x'}, {'destination': '@2', 'member': NOC},
+    {'sender': '@0', 'arg0namespace': 'com'},
+]
+
+
+def name_signal_histories():
+    """The bus's own NameOwnerChanged broadcasts (body: name, old owner, new owner) against rules with sender,
+    argN, arg0namespace and path_namespace constraints: clients 2 and 3 hold one rule each; clients 0 and 1 acquire,
+    take over, release names and leave."""
+    n = len(NOC_RULES)
+    for k in range(n):
+        ops, serial = setup3(4)
+        ops.append(['match', 2, serial, dict(NOC_RULES[k]), 0])
+        ops.append(['match', 3, serial + 1, dict(NOC_RULES[(k + 1) % n], _via='client'), 1])
+        serial += 2
+        for op in (['req', 0, 0, 'org.ex.A', 1, 0], ['req', 1, 0, 'org.ex.B', 0, 0], ['req', 1, 0, 'org.ex.A', 2, 0],
+                   ['req', 0, 0, 'org.ex.A', 0, 0], ['rel', 1, 0, 'org.ex.A', 0], ['req', 3, 0, 'org.ex.A.sub', 0, 0]):
+            op[2] = serial
+            serial += 1
+            ops.append(op)
+        ops.append(['disc', 2])
+        ops.append(['req', 1, serial, 'org.ex.C', 0, 0])
+        ops.append(['disc', 1])
+        yield ops
+
+
+def random_full_history(rng):
+    """3-4 clients; several rules with path_namespace / argN / argNpath / arg0namespace constraints (always some);
+    broadcasts whose paths and bodies are drawn from the pools those constraints talk about; name requests (the bus's
+    own broadcasts); a disconnect of a holder now and then."""
+    n = rng.choice([3, 3, 4])
+    ops, serial = setup3(n)
+    for _ in range(rng.choice([2, 3, 4, 5])):
+        r = {}
+        while not r:
+            r = random_complex_constraints(rng, p=1.0)
+        if rng.random() < 0.4:
+            r.update(rng.choice([{'type': 'signal'}, {'interface': rng.choice(IFACES)}, {'member': rng.choice(MEMBERS)},
+                                 {'sender': '@%d' % rng.randrange(n)}, {'sender': BUS}, {'path': rng.choice(NS_PATHS)}]))
+        ops.append(['match', rng.randrange(n), serial, r, rng.choice([0, 0, 1])])
+        serial += 1
+    for _ in range(rng.choice([6, 10, 16])):
+        x = rng.random()
+        i = rng.randrange(n)
+        if x < 0.12:
+            ops.append(['req', i, serial, rng.choice(['org.ex.A', 'org.ex.B', 'org.ex.A.sub', 'com.ex']),
+                        rng.randrange(4), 0])
+        elif x < 0.16:
+            ops.append(['disc', i])
+        else:
+            ops.append(['msg', i, dict(t=4 if x < 0.9 else rng.choice([1, 2, 3]), serial=serial, dest=None,
+                                       path=rng.choice(NS_PATHS), iface=rng.choice(IFACES), member=rng.choice(MEMBERS),
+                                       rs=3, err='org.ex.Error', body=rng.choice(ARG_BODY_KEYS),
+                                       be=rng.random() < 0.15, flags=rng.choice([0, 0, 1]))])
+        serial += 1
+    return ops
 
 
 def random_history(rng, length):
@@ -1727,6 +2227,19 @@ def run(ctx):
 
     for ops in body_histories():
         go('bodies-reencode', ops)
+
+    # every key of the rule language; rule texts written by the harness and by the real txdbus client
+    for ops in full_rule_histories():
+        go('full-rule-language', ops)
+    for ops in name_signal_histories():
+        go('full-rule-language', ops)
+    nfull = ctx.scale(quick=60, thorough=1500)
+    for k in range(nfull):
+        go('full-rule-language', random_full_history(ctx.rng))
+    if CLIENT_TEXTS['fallback']:
+        ctx.note('advisory: %d rule texts could not be obtained from the real txdbus client and were written by the '
+                 'harness' % CLIENT_TEXTS['fallback'])
+    ctx.note('rule texts written by the real DBusClientConnection.addMatch: %d' % CLIENT_TEXTS['n'])
 
     n = ctx.scale(quick=330, thorough=9000)
     for k in range(n):
